@@ -45,6 +45,13 @@ def pairs(feature, maxsub):
         for ev in ("export = false", "export = true", "export"):
             out.append(("entrait_export(.., %s) == entrait(.., %s)" % (ev, ev), tgt,
                         attr("entrait_export", name, ["mockall", ev]), attr("entrait", name, ["mockall", ev])))
+            # the two variant defaults (export, unimock) are independent of each other
+            out.append(("entrait_export(mock_api, %s) == entrait(mock_api, %s)" % (ev, ev), tgt,
+                        attr("entrait_export", name, ["mock_api = TMock", ev]), attr("entrait", name, ["mock_api = TMock", ev])))
+        for uv in ("unimock = false",) + (("unimock = true", "unimock") if feature else ()):
+            out.append(("entrait_export(%s, mockall) == entrait(%s, mockall, export)" % (uv, uv), tgt,
+                        attr("entrait_export", name, [uv, "mockall", "mock_api = TMock"]),
+                        attr("entrait", name, [uv, "mockall", "mock_api = TMock", "export"])))
         if feature:
             for sub in [(), ("mock_api = TMock",), ("mock_api = TMock", "export"), ("no_deps", "mock_api = TMock")]:
                 out.append(("[feature] entrait(%s) == entrait(%s, unimock)" % (", ".join(sub), ", ".join(sub)), tgt,
